@@ -1,12 +1,13 @@
 ----------------------------- MODULE Memfd_Gen -----------------------------
-(* TLC as case generator for C13/memfd: size x pattern x reader kind x order of *)
+(* TLC as case generator for C13/memfd: size x pattern x reader kind (incl. file *)
+(* readers whose st_size differs from what they yield) x order of               *)
 (* the mutation attempts (every rotation of the attempt list), plus the cases   *)
 (* in which the memfd holds an executable that is run from it in a container.   *)
 EXTENDS MemfdDefs, SequencesExt, TLC, Json
 
 Sizes   == {0, 1, 4095, 4096, 4097, 1048576, 16777216}
 Pats    == {"zero", "ff", "ramp"}
-Readers == {"bytes", "file", "pipe", "short"}
+Readers == ReaderKinds
 OpList  == SetToSeq(Ops)
 Rot(k)  == [i \in 1..Len(OpList) |-> OpList[((i + k - 1) % Len(OpList)) + 1]]
 
@@ -14,6 +15,8 @@ Cases == { [size |-> s, pat |-> p, reader |-> r, ops |-> Rot(k), exec |-> FALSE]
              s \in Sizes, p \in Pats, r \in Readers, k \in 0..(Len(OpList) - 1) }
    \cup  { [size |-> -1, pat |-> "probe", reader |-> r, ops |-> Rot(k), exec |-> TRUE] :
              r \in Readers, k \in 0..(Len(OpList) - 1) }
+   \cup  { [size |-> -1, pat |-> "kernel", reader |-> r, ops |-> Rot(k), exec |-> FALSE] :
+             r \in KernelFiles, k \in 0..(Len(OpList) - 1) }
 ASSUME ndJsonSerialize("memcases.ndjson", SetToSeq(Cases))
 ASSUME PrintT(<<"generated", Cardinality(Cases)>>)
 VARIABLE x
